@@ -285,6 +285,8 @@ def run(ctx):
     chain = ['sim_iface', 'sim_iface_det', 'setp', 'setps', 'sets', 'other_det', 'seed']
     for first in ('iface', 'iface_safe'):
         hists += [(first,) + h for h in itertools.product(chain, repeat=3 if ctx.quick else 4)]
+        # the same chains on a model that carries a rule (a deterministic run re-applies rules to its result)
+        hists += [(rl, first) + h for rl in ('rule', 'rule_dt') for h in itertools.product(chain, repeat=3)]
     if not ctx.quick:
         small = ['r_hill', 'r_gdelay', 'rule', 'rule_dt', 'setp', 'init', 'iface', 'sim_ssa', 'sim_det', 'sim_iface']
         hists += list(itertools.product(small, repeat=5))
